@@ -92,7 +92,11 @@ fn run_cli(cli: &str, logic: &str, data: &str, form: usize) -> (String, i64, Str
         }
     }
     cmd.stdin(Stdio::piped()).stdout(Stdio::piped()).stderr(Stdio::piped()).env_remove("RUST_BACKTRACE");
-    let mut child = cmd.spawn().expect("spawn jsonlogic");
+    let mut child = match cmd.spawn() {
+        Ok(c) => c,
+        // (the operating system refused to start the command, e.g. an argument too long)
+        Err(e) => return (String::new(), 126, format!("not started: {}", e)),
+    };
     // stdin is written, and both output streams are drained, on their own threads: texts longer
     // than a pipe buffer must neither block this process nor the command.  Long stdin texts are
     // written in two pieces with a pause, as a slow producer at the other end of a pipe would.
@@ -383,6 +387,9 @@ pub fn cli_from_plain(rng: &mut Rng, cases: &[(Value, Value, String)]) -> Vec<Em
         let (lt, dt) = (rule.to_string(), data.to_string());
         if is_flag_like(&lt) || is_flag_like(&dt) || lt.contains('\0') || dt.contains('\0') {
             continue;
+        }
+        if lt.len() > 100_000 || dt.len() > 100_000 {
+            continue; // longer than one command-line argument may be (E2BIG): not deliverable this way
         }
         out.push(cli_case(&cli, &format!("cli:{}", tag), &lt, &dt, rng.below(3)).0);
     }
